@@ -31,6 +31,9 @@ const NAMES: [&str; 20] = [
 const LABELS: [&str; 2] = ["L", "M"];
 const TYPES: [&str; 2] = ["T", "U"];
 const MAX_ID: u64 = 3;
+/// Entity ids are drawn by rank from one of these tables (knob `ids`): keys end in the id as
+/// 16 hex digits, so the id domain must include ids whose hex form has letters and large ids.
+const ID_TABLES: [[u64; 4]; 4] = [[0, 1, 2, 3], [10, 11, 26, 255], [0xabcdef, 3, 0xff, 12], [u64::MAX - 1, 1, 0x1f, 0x2a]];
 
 #[derive(Clone, Default)]
 struct TModel {
@@ -39,6 +42,7 @@ struct TModel {
 }
 
 struct World {
+    ids: [u64; 4],
     names: Vec<String>,
     models: Vec<TModel>,
 }
@@ -197,7 +201,7 @@ fn check_all(c: &mut Ctx, pm: &PersistenceManager) {
             Ok(es) => c.edges_view("scan_edges", ti, &index_edges(&es)),
             Err(e) => c.fail("C17/scan_edges/error".into(), format!("tenant {name:?}: {e}")),
         }
-        for id in 0..=MAX_ID {
+        for id in c.w.ids {
             match st.get_node(&name, id) {
                 Ok(g) => {
                     let g = g.map(|n| canon_node(&n));
@@ -324,6 +328,7 @@ impl Scenario for C17 {
         let names = gen_names(&mut s.knobs);
         let nt = names.len() as u64;
         case.knobs.insert("tenants".into(), json!(names));
+        case.knobs.insert("ids".into(), json!(s.knobs.below(4)));
         let n = s.knobs.short_len(2, 24);
         let r = &mut s.workload;
         for _ in 0..n {
@@ -377,7 +382,7 @@ impl Scenario for C17 {
                 return o;
             }
         };
-        let mut w = World { models: vec![TModel::default(); names.len()], names };
+        let mut w = World { ids: ID_TABLES[(case.knob_u64("ids", 0) % 4) as usize], models: vec![TModel::default(); names.len()], names };
         if w.names.iter().any(|a| w.names.iter().any(|b| b.starts_with(&format!("{a}:")))) {
             o.probe("name_extends_another");
         }
@@ -394,7 +399,7 @@ impl Scenario for C17 {
         for (step, ev) in case.events.iter().enumerate() {
             let kind = op(ev).to_string();
             let ti = (u(ev, "t") % nt) as usize;
-            let id = u(ev, "id") % (MAX_ID + 1);
+            let id = w.ids[(u(ev, "id") % (MAX_ID + 1)) as usize];
             let via = u(ev, "via") % 2;
             let tname = w.names[ti].clone();
             let holders = w.models.iter().filter(|m| !m.nodes.is_empty() || !m.edges.is_empty()).count();
